@@ -213,6 +213,18 @@ func (d *Duplex) ResumeRelayWrites() {
 	d.fromRelay.mu.Unlock()
 }
 
+// deadlineError is what a connection returns once its read deadline has passed.
+type deadlineError struct{}
+
+func (deadlineError) Error() string   { return "i/o timeout" }
+func (deadlineError) Timeout() bool   { return true }
+func (deadlineError) Temporary() bool { return true }
+
+// ExpireRelayReads: the client connection's read deadline has passed (martian puts one on
+// every connection it accepts): from now on every read by the relay fails at once with a
+// timeout error, as net.Conn does.
+func (d *Duplex) ExpireRelayReads() { d.toRelay.fail(deadlineError{}, nil) }
+
 // FailRelayReads makes the relay's next read from the client fail with a
 // non-EOF error.
 func (d *Duplex) FailRelayReads() { d.toRelay.fail(ErrInjected, nil) }
@@ -235,6 +247,11 @@ func (d *Duplex) Pending() int {
 // TearDown unblocks everybody: used at the end of every case.
 func (d *Duplex) TearDown() {
 	d.toRelay.closeWrite()
+	d.toRelay.mu.Lock()
+	if d.toRelay.rdErr != nil {
+		d.toRelay.rdErr = io.ErrClosedPipe // (whatever reads failed with before: the connection is gone now)
+	}
+	d.toRelay.mu.Unlock()
 	d.toRelay.fail(nil, io.ErrClosedPipe)
 	d.fromRelay.fail(io.EOF, io.ErrClosedPipe)
 }
